@@ -5,8 +5,9 @@ usage: run_seeded.py [seed-id ...]   prints one line per seed: which property ch
 import json, os, subprocess, sys, tempfile, concurrent.futures as cf
 VERIF = os.path.dirname(os.path.dirname(os.path.abspath(__file__)))
 sys.path.insert(0, VERIF)
-seeds = sys.argv[1:] or sorted(d for d in os.listdir(os.path.join(VERIF, 'seeded')) if os.path.isdir(os.path.join(VERIF, 'seeded', d)))
+seeds = [a for a in sys.argv[1:] if '-' in a] or sorted(d for d in os.listdir(os.path.join(VERIF, 'seeded')) if os.path.isdir(os.path.join(VERIF, 'seeded', d)))
 props = sorted(f[:-3].upper() for f in os.listdir(os.path.join(VERIF, 'aylint', 'rules')) if f.startswith('c') and f[1:3].isdigit())
+props = [a for a in sys.argv[1:] if '-' not in a] or props
 def one(sid):
     wt = '/tmp/sv/run-' + sid
     os.makedirs('/tmp/sv', exist_ok=True)
